@@ -792,6 +792,78 @@ Definition eworld_step (entries : aheap -> list gslice -> aheap * gslice) (w : e
 Definition eworld_run entries (sched : list eact) (w : eworld) : eworld := fold_left (eworld_step entries) sched w.
 
 (* ------------------------------------------------------------------------------------------ *)
+(* E. logParse over the log directives of a site, as written in the file                          *)
+(* ------------------------------------------------------------------------------------------ *)
+(* one `log` directive as the dispenser hands it over: its arguments and the lines of its block
+   (sub-directive name, its arguments) *)
+Record rawdir := { rd_args : list bytes; rd_block : list (bytes * list bytes) }.
+(* what logParse makes of ONE directive *)
+Record pentry := { pe_scope : bytes; pe_output : bytes; pe_format : bytes; pe_except : list bytes }.
+Local Open Scope string_scope.
+Definition lit_except : bytes := Eval vm_compute in bs "except".
+Definition lit_ipmask : bytes := Eval vm_compute in bs "ipmask".
+Definition roller_subs : list bytes := Eval vm_compute in
+  [bs "rotate_size"; bs "rotate_age"; bs "rotate_keep"; bs "rotate_compress"; bs "rotate_disable"].
+Definition lit_default_output : bytes := Eval vm_compute in bs "access.log".
+Definition lit_default_format : bytes := Eval vm_compute in
+  bs "{remote} - {user} [{when}] ""{method} {uri} {proto}"" {status} {size}".
+Local Close Scope string_scope.
+(* the variables of logParse that live across the lines of a block; [carry] = false is the code as
+   it is (`var logExceptions []string` is declared INSIDE the `for c.Next()` loop, path / format /
+   output are assigned afresh after the block); carry = true is the variant in which they are
+   declared before the loop, so that what one directive leaves behind is the next one's start *)
+Record pstate := { ps_except : list bytes; ps_scope : bytes; ps_output : bytes; ps_format : bytes }.
+Definition pstate0 : pstate :=
+  {| ps_except := []; ps_scope := [47]; ps_output := lit_default_output; ps_format := lit_default_format |}.
+(* the block: `except` appends its arguments, ipmask needs one, roller sub-directives are not
+   modelled (accepted), anything else is an error *)
+Fixpoint parse_block (b : list (bytes * list bytes)) (exc : list bytes) : option (list bytes) :=
+  match b with
+  | [] => Some exc
+  | (what, where_) :: r =>
+    if beq what lit_except then parse_block r (exc ++ where_)
+    else if beq what lit_ipmask then match where_ with [] => None | _ => parse_block r exc end
+    else if mem what roller_subs then parse_block r exc
+    else None
+  end.
+(* one round of the `for c.Next()` loop from the state [st0] the round starts in *)
+Definition parse_dir_from (st0 : pstate) (d : rawdir) : option pstate :=
+  match parse_block (rd_block d) (ps_except st0) with
+  | None => None
+  | Some exc =>
+    match rd_args d with
+    | [] => Some {| ps_except := exc; ps_scope := ps_scope st0; ps_output := ps_output st0; ps_format := ps_format st0 |}
+    | [o] => Some {| ps_except := exc; ps_scope := ps_scope st0; ps_output := o; ps_format := ps_format st0 |}
+    | [p; o] => Some {| ps_except := exc; ps_scope := p; ps_output := o; ps_format := ps_format st0 |}
+    | [p; o; f] => Some {| ps_except := exc; ps_scope := p; ps_output := o; ps_format := f |}
+    | _ => None
+    end
+  end.
+Definition entry_of (st : pstate) : pentry :=
+  {| pe_scope := ps_scope st; pe_output := ps_output st; pe_format := ps_format st; pe_except := ps_except st |}.
+(* what ONE directive means, read alone *)
+Definition parse_dir (d : rawdir) : option pentry := option_map entry_of (parse_dir_from pstate0 d).
+(* the loop over the directives of the site, in file order: the parsed entries, numbered *)
+Fixpoint log_parse_loop (carry : bool) (st : pstate) (ds : list rawdir) : option (list pentry) :=
+  match ds with
+  | [] => Some []
+  | d :: r =>
+    match parse_dir_from st d with
+    | None => None
+    | Some st' =>
+      match log_parse_loop carry (if carry then st' else pstate0) r with
+      | None => None
+      | Some es => Some (entry_of st' :: es)
+      end
+    end
+  end.
+Definition log_parse (ds : list rawdir) : option (list pentry) := log_parse_loop false pstate0 ds.
+Definition log_parse_carried (ds : list rawdir) : option (list pentry) := log_parse_loop true pstate0 ds.
+(* the rule table the middleware gets (appendEntry, one entry per directive, in order) *)
+Definition dir_of (e : pentry) : directive := {| d_scope := pe_scope e; d_except := pe_except e |}.
+Definition rules_of (es : list pentry) : list rule := parse_logs (map dir_of es) 0 [].
+
+(* ------------------------------------------------------------------------------------------ *)
 (* correspondence cases and judge                                                              *)
 (* ------------------------------------------------------------------------------------------ *)
 Inductive case :=
@@ -820,6 +892,9 @@ Inductive case :=
         (aborted : bool) (acc : N)
         (obs_status : Z) (obs_size : N) (obs_lines : list line)
         (tailfmt : bytes) (e : renv) (obs_tails : list bytes)
+(* lines of ONE request found in the files of log directives that have formats of their own:
+   (the directive's format after the common prefix, what its file shows there) *)
+| CTails (e : renv) (items : list (bytes * bytes))
 (* requests issued concurrently *)
 | CBurst (cs : list case).
 
@@ -863,6 +938,9 @@ Fixpoint judge1 (c : case) : bool * bool :=
                   forallb (spec_expand_ok e tf) otails &&
                   Nat.eqb (length otails) (length ol) in
       (agree, spec)
+  | CTails e items =>
+      (forallb (fun it => match expand_env e (fst it) with Ok o => beq o (snd it) | Panic => false end) items,
+       forallb (fun it => spec_expand_ok e (fst it) (snd it)) items)
   | CBurst cs =>
       (fix go (l : list case) : bool * bool :=
          match l with
